@@ -126,3 +126,11 @@ def register_page_shapes(reg):
     reg.shape('FunctionChild', {'ob': 'Ref[Documentable]'})
     reg.shape('AttributeChild', {'ob': 'Ref[Documentable]'})
     reg.shape('TemplateWriter', {'dry_run': 'Bool', 'total_pages': 'Int', 'written_pages': 'Int', 'build_directory': 'Obj[Path]'})
+
+
+def register_registry_shapes(reg):
+    reg.shapes['System'].fields.update({'allobjects': 'Map[Str,Ref[Documentable]]', 'rootobjects': 'Seq[Ref[Module]]'})
+    reg.shapes['Documentable'].fields.update({'_linker': 'RefN[Linker]'})
+    reg.shapes['CanContainImportsDocumentable'].fields.update({'_localNameToFullName_map': 'Map[Str,Str]'})
+    reg.shapes['Function'].fields.update({'signature': 'Opt[Obj[Sig]]', 'overloads': 'Seq[Ref[FunctionOverload]]'})
+    reg.shape('FunctionOverload', {})
